@@ -85,6 +85,8 @@ def g_c12(rng, tier):
     return gen.gen_ctx_case(rng, nps=["clusters", "tree"], max_ops=5 if tier == "quick" else 10, max_rows=40 if tier == "quick" else 80)
 
 def g_c13(rng, tier):
+    if rng.random() < 0.2:
+        return gen.gen_two_stage_warm(rng)
     if rng.random() < 0.7:
         c = gen.gen_cf_case(rng, kinds=["greedy", "ucb", "softmax", "thompson", "popularity"], max_ops=10, warm=True)
     else:
